@@ -62,12 +62,15 @@ def gen_params(ctx, run, entry=None):
     policy = wl.choice(core.POLICIES)
     sib_ok = wl.random() < ctx.get('p_sibling', 0) and e.get('sibling') is not None
     ops = histories.gen_history(wl, e['meta'], n_ops, two_threads=two, xarray_ok=xr_ok, sibling_ok=sib_ok)
-    return e, two, policy, ops
+    pre_p = wl.choice([0, 0.01]) if two else 0     # half of the two-caller histories pre-empt at line level
+    return e, two, policy, ops, ([pre_p, f"{ctx['seed']}:{run}"] if pre_p else None)
 
 
-def one_run(ctx, run, ops=None, trace=None, entry=None):
+def one_run(ctx, run, ops=None, trace=None, entry=None, preempt='gen'):
     seed = ctx['seed']
-    e, two, policy, gen_ops = gen_params(ctx, run, entry)
+    e, two, policy, gen_ops, gen_pre = gen_params(ctx, run, entry)
+    if preempt == 'gen':
+        preempt = gen_pre
     m = e['meta']
     if ops is None:
         ops = gen_ops
@@ -103,12 +106,15 @@ def one_run(ctx, run, ops=None, trace=None, entry=None):
             if prev is not None and prev != op[2][0]:
                 probes['method_switch_on_same_object'] += 1
             last_by_slot[op[1]] = op[2][0]
-    outcomes, fs, r = histories.execute(e['data'], ops, chooser, observer=observer, sibling=sibling)
+    outcomes, fs, r = histories.execute(e['data'], ops, chooser, observer=observer, sibling=sibling, preempt=preempt)
+    if preempt:
+        probes['line_level_preemption'] += 1
     rec = {'run': run, 'file': e['name'], 'layout': f"{m['kind']}/{m['layout']}", 'ops': len(ops), 'calls': 0,
            'states': sorted(states), 'probes': dict(probes), 'violation': None, 'two_threads': two,
            'ed': r.sched.digest(), 'simtime': r.sched.clock, 'status': r.status}
     if r.status != 'ok':
         rec['violation'] = _viol(e, ops, None, f'history-{r.status}', f'history execution ended with {r.status}', r, m)
+        rec['violation']['preempt'] = preempt
         return rec
     openers = {}
     seen_calls = collections.Counter()
@@ -136,6 +142,7 @@ def one_run(ctx, run, ops=None, trace=None, entry=None):
                     cls = 'wrong-value'
                 rec['violation'] = _viol(e, ops, i, cls, f'op {i} {op[2]} via {openers[op[1]]} gave {got}, fresh '
                                                         f'reader gives {want}', r, m)
+                rec['violation']['preempt'] = preempt
                 return rec
     if any(v > 1 for v in seen_calls.values()):
         rec['probes']['identical_call_repeated_on_same_object'] = 1
@@ -164,7 +171,8 @@ def replay_doc(doc, data):
     m = filelib.read_meta(data)
     e = {'name': doc['file'], 'data': data, 'meta': m, 'spec': doc['spec'], 'sibling': filelib.make_sibling(data, m)}
     ctx = {'seed': doc.get('seed', 0), 'lib': [e], 'p_two_threads': 0, 'p_xarray': 0}
-    rec = one_run(ctx, doc.get('run', 0), ops=[list(o) for o in doc['ops']], trace=doc['trace'], entry=e)
+    rec = one_run(ctx, doc.get('run', 0), ops=[list(o) for o in doc['ops']], trace=doc['trace'], entry=e,
+                  preempt=doc.get('preempt'))
     v = rec['violation']
     if not v:
         return None, ''
@@ -290,12 +298,12 @@ def _main(tier, seed, scratch, t0):
             viols.setdefault(rec['violation']['signature'], []).append((run, rec['violation']))
     for c in crashed:
         run = c['item']
-        e, _, _, ops = gen_params(ctx, run)
+        e, _, _, ops, _ = gen_params(ctx, run)
         viols.setdefault('worker_crash', []).append((run, {
             'signature': 'worker_crash', 'what': 'the reading process died while executing this history',
             'file': e['name'], 'spec': e['spec'], 'ops': ops, 'trace': [], 'index': None, 'crash': True}))
     for run in (0, 1, 2):
-        e, _, _, ops = gen_params(ctx, run)
+        e, _, _, ops, _ = gen_params(ctx, run)
         samples.append({'run': run, 'file': e['name'], 'history': ops[:14]})
     known = common.load_known(PID)
     reported = []
